@@ -148,42 +148,88 @@ class Run:
             self.cov["samples"].append(case)
 
     # ---- build -------------------------------------------------------------------------------
-    def build(self, extra_targets=(), extra_generators=()):
-        """Regenerate tables, build Props/<prop>.vo (full .vo, never -vos), check closedness."""
+    def build(self, extra_targets=(), extra_generators=(), layer_generators=()):
+        """Regenerate tables, build the property's theorem files (full .vo, never -vos), check closedness.
+
+        Two stages.  CORE: Generated/Tables.v + the module's own generators, Props/<prop>.vo + extra_targets - the model and
+        the theorems the correspondence check needs; if this stage breaks, nothing can be run: False.  LAYERS: the generators
+        registered in extra_checks.py (translators of source text) and the files Props/<prop><Suffix>.v (theorems about the
+        generated terms); if a translator rejects the source or a tie proof no longer goes through, that is a broken proof
+        obligation (reported, no-failing-input-found) but the core is intact, so build() still returns True and the module's
+        check() then SEARCHES for a concrete failing input on the implementation."""
         prop = self.prop
         os.makedirs(os.path.join(COQDIR, "Generated"), exist_ok=True)
+        core_file = prop + ".v"
+        layer_files = [f for f in prop_files(prop) if f != core_file]
+        built = []
         lock = open(os.path.join(COQDIR, ".build.lock"), "w")
         fcntl.flock(lock, fcntl.LOCK_EX)
         try:
-            r = subprocess.run([PY, os.path.join(VERIF, "harness", "gen_tables.py"),
-                                os.path.join(COQDIR, "Generated", "Tables.v")],
-                               env=env_for_impl(), capture_output=True, text=True, timeout=120)
+            def run_gen(g, out_name):
+                return subprocess.run([PY, os.path.join(VERIF, "harness", g), os.path.join(COQDIR, "Generated", out_name)],
+                                      env=env_for_impl(), capture_output=True, text=True, timeout=120)
+
+            def gen_out(g):
+                return "Tables" + g.replace("gen_tables_", "").replace(".py", "").capitalize() + ".v"
+            r = run_gen("gen_tables.py", "Tables.v")
             if r.returncode != 0:
                 self.broken_obligation("Generated/Tables.v", "the table translator rejected the source: " + r.stderr.strip()[-600:])
                 return False
             for g in extra_generators:
-                out_name = "Tables" + g.replace("gen_tables_", "").replace(".py", "").capitalize() + ".v"
-                r = subprocess.run([PY, os.path.join(VERIF, "harness", g), os.path.join(COQDIR, "Generated", out_name)],
-                                   env=env_for_impl(), capture_output=True, text=True, timeout=120)
+                r = run_gen(g, gen_out(g))
                 if r.returncode != 0:
-                    self.broken_obligation("Generated/" + out_name, "the table translator rejected the source: " + r.stderr.strip()[-600:])
+                    self.broken_obligation("Generated/" + gen_out(g), "the table translator rejected the source: " + r.stderr.strip()[-600:])
                     return False
+            dead_layers = set()
+            for g in layer_generators:
+                r = run_gen(g, gen_out(g))
+                if r.returncode != 0:
+                    # the theorem files that depend on this table (computed while the table still exists)
+                    dead_layers.update(lf for lf in layer_files if ("Generated/" + gen_out(g)) in coq_cone("Props/" + lf)
+                                       or not os.path.exists(os.path.join(COQDIR, "Generated", gen_out(g))))
+                    self.broken_obligation("Generated/" + gen_out(g), "the source translator rejected the source: " + r.stderr.strip()[-600:])
+                    # fail closed: theorems must not be re-checked against the terms of an earlier source
+                    for ext in (".v", ".vo", ".vos", ".vok", ".glob"):
+                        try:
+                            os.remove(os.path.join(COQDIR, "Generated", gen_out(g)[:-2] + ext))
+                        except OSError:
+                            pass
             ensure_makefile()
-            targets = ["Props/%s.vo" % f[:-2] for f in prop_files(prop)] + list(extra_targets)
-            cmd = ["timeout", "2400", "make", "-j16"] + targets
-            r = subprocess.run(cmd, cwd=COQDIR, capture_output=True, text=True)
-            self.cov["checker_cmd"] = "cd coq && coq_makefile -f _CoqProject -o Makefile && make -j16 " + " ".join(targets) + \
-                " (coqc 8.16.1, full .vo) && coqc Print Assumptions for every theorem of Props/%s.v" % prop
-            if r.returncode != 0:
+
+            def make(targets):
+                r = subprocess.run(["timeout", "2400", "make", "-j16"] + targets, cwd=COQDIR, capture_output=True, text=True)
+                if r.returncode == 0:
+                    return None
                 m = re.search(r'File "\./([^"]+)", line (\d+)', r.stdout + r.stderr)
-                where = "%s line %s" % (m.group(1), m.group(2)) if m else "?"
+                where = "%s line %s" % (m.group(1), m.group(2)) if m else (targets[0] if len(targets) == 1 else "?")
                 self.build_log = (r.stdout + r.stderr)[-3000:]
-                self.broken_obligation(where, "coqc failed: " + self.build_log[-1200:])
+                return where, "coqc failed: " + self.build_log[-1200:]
+            core_targets = ["Props/%s.vo" % prop] + list(extra_targets)
+            all_targets = core_targets + ["Props/%s.vo" % f[:-2] for f in layer_files]
+            self.cov["checker_cmd"] = "cd coq && coq_makefile -f _CoqProject -o Makefile && make -j16 " + " ".join(all_targets) + \
+                " (coqc 8.16.1, full .vo) && coqc Print Assumptions for every theorem of " + ", ".join("Props/" + f for f in prop_files(prop))
+            bad = make(core_targets)
+            if bad:
+                self.broken_obligation(*bad)
                 return False
+            built.append(core_file)
+            live = [f for f in layer_files if f not in dead_layers]
+            for lf in sorted(dead_layers):
+                self.broken_obligation("Props/" + lf, "depends on a table the source translator could not produce")
+            if live and make(["Props/%s.vo" % f[:-2] for f in live]) is None:
+                built += live
+            else:
+                for lf in live:                              # find out which of them still build
+                    bad = make(["Props/%s.vo" % lf[:-2]])
+                    if bad:
+                        self.broken_obligation(*bad)
+                    else:
+                        built.append(lf)
         finally:
             fcntl.flock(lock, fcntl.LOCK_UN)
             lock.close()
-        cone = sorted(set(f for pf in prop_files(prop) for f in coq_cone("Props/" + pf)))
+        self.cov["theorem_files"] = {"built": built, "broken": [f for f in prop_files(prop) if f not in built]}
+        cone = sorted(set(f for pf in built for f in coq_cone("Props/" + pf)))
         n_stmt = n_closed = 0
         for f in cone:
             txt = strip_comments(open(os.path.join(COQDIR, f)).read())
@@ -193,34 +239,49 @@ class Run:
                 return False
             n_stmt += len(STMT.findall(txt))
             n_closed += len(CLOSER.findall(txt))
+        # statements of theorem files that no longer build are obligations that are not discharged
+        for pf in prop_files(prop):
+            if pf not in built:
+                n_stmt += len(STMT.findall(strip_comments(open(os.path.join(COQDIR, "Props", pf)).read())))
         self.cov["obligations"] = n_stmt
         self.cov["discharged"] = min(n_stmt, n_closed)
         self.cov["cone_files"] = cone
-        # closedness of the property theorems
-        names, src = [], ""
-        for pf in prop_files(prop):
+
+        # closedness of the property theorems: one coqc per theorem file, side by side
+        def assumptions_of(pf):
             ptxt = strip_comments(open(os.path.join(COQDIR, "Props", pf)).read())
             ns = [n for (_, n) in STMT.findall(ptxt)]
+            if not ns:
+                return ns, []
+            src = "From Isobar Require Import Props.%s.\n" % pf[:-2] + "".join('Print Assumptions %s.\n' % n for n in ns)
+            out = self.coqc_text("assumptions_" + pf[:-2], src)
+            blocks = split_assumption_output(out, len(ns))
+            if blocks is None:
+                raise CheckError("cannot parse Print Assumptions output:\n" + out[-2000:])
+            return ns, blocks
+        names = []
+        with ThreadPoolExecutor(max_workers=6) as ex:
+            results = list(ex.map(assumptions_of, built))
+        for ns, blocks in results:
             names += ns
-            src += "From Isobar Require Import Props.%s.\n" % pf[:-2] + "".join('Print Assumptions %s.\n' % n for n in ns)
-        out = self.coqc_text("assumptions", src)
-        blocks = split_assumption_output(out, len(names))
-        if blocks is None:
-            raise CheckError("cannot parse Print Assumptions output:\n" + out[-2000:])
-        for n, b in zip(names, blocks):
-            if b.strip().startswith("Closed under the global context"):
-                self.theorems[n] = "closed"
-            else:
-                axs = [a for a in re.findall(r"^([A-Za-z_][\w.']*)\s*:", b, re.M) if a != "Axioms"]
-                bad = [a for a in axs if a not in ALLOWED_AXIOMS and a.split(".")[-1] not in ALLOWED_AXIOMS]
-                self.theorems[n] = "axioms: " + ", ".join(axs)
-                for a in axs:
-                    s = "theorem %s depends on standard-library axiom %s" % (n, a)
-                    if s not in self.assumptions:
-                        self.assumptions.append(s)
-                if bad:
-                    self.broken_obligation("Props/%s.v" % prop, "theorem %s depends on non-standard axioms %s" % (n, bad))
-                    return False
+            for n, b in zip(ns, blocks):
+                if b.strip().startswith("Closed under the global context"):
+                    self.theorems[n] = "closed"
+                else:
+                    axs = [a for a in re.findall(r"^([A-Za-z_][\w.']*)\s*:", b, re.M) if a != "Axioms"]
+                    bad = [a for a in axs if a not in ALLOWED_AXIOMS and a.split(".")[-1] not in ALLOWED_AXIOMS]
+                    self.theorems[n] = "axioms: " + ", ".join(axs)
+                    for a in axs:
+                        s = "theorem %s depends on standard-library axiom %s" % (n, a)
+                        if s not in self.assumptions:
+                            self.assumptions.append(s)
+                    if bad:
+                        self.broken_obligation("Props/%s.v" % prop, "theorem %s depends on non-standard axioms %s" % (n, bad))
+                        return False
+        for pf in prop_files(prop):
+            if pf not in built:
+                for (_, n) in STMT.findall(strip_comments(open(os.path.join(COQDIR, "Props", pf)).read())):
+                    self.theorems[n] = "BROKEN: Props/%s no longer compiles" % pf
         self.open_obligations = [n for n in names if n.endswith("_partial") or n.endswith("_unproved")]
         return True
 
@@ -457,7 +518,7 @@ def main_entry(module, argv):
             return rc
         import extra_checks
         xg, xc = extra_checks.EXTRA.get(module.PROP, ((), ()))
-        if run.build(getattr(module, "EXTRA_TARGETS", ()), tuple(getattr(module, "EXTRA_GENERATORS", ())) + tuple(xg)):
+        if run.build(getattr(module, "EXTRA_TARGETS", ()), tuple(getattr(module, "EXTRA_GENERATORS", ())), tuple(xg)):
             module.check(run)
             for f in xc:
                 f(run)
